@@ -15,11 +15,14 @@ ASSUMPTIONS = ["both sides are computed by the library; agreement up to 1e-8 * (
 
 
 def _take(res, idx):
-    """slice a result (array -> fancy index on axis 0, object -> .slice)."""
+    """slice a result (array -> fancy index on axis 0, object -> .slice).
+    The index array's dtype / container varies deterministically with its content (int64 / int32 jax arrays, numpy int64)."""
     import jax.numpy as jnp
 
     if hasattr(res, "slice"):
-        return res.slice(jnp.array(idx))
+        k = (sum(idx) + len(idx)) % 3
+        ia = jnp.array(idx) if k == 0 else (jnp.array(idx, dtype=jnp.int32) if k == 1 else np.array(idx, dtype=np.int64))
+        return res.slice(ia)
     return np.asarray(res)[np.array(idx)]
 
 
